@@ -106,21 +106,29 @@ structure Req (P : Type) where
   ttl : Option Nat
 deriving Repr
 
+/-- the mid-quote the book implies: `(best ask + best bid) / 2.0` if both best orders are limit
+orders, else `None` -/
+def midOf (ops : PriceOps P) (buys sells : List (Order P)) : Option P :=
+  match Book.bestPrice buys, Book.bestPrice sells with
+  | some b, some s => some (ops.mid s b)
+  | _, _ => none
+
+/-- the market-price rule: while running, the last trade price if any, else the mid-quote if any,
+else the previous value; while not running, the previous value -/
+def marketRule (running : Bool) (last mid prev : Option P) : Option P :=
+  if running then
+    match last with
+    | some l => some l
+    | none => match mid with
+      | some x => some x
+      | none => prev
+  else prev
+
 /-- `_update_market_price()` -/
 def Market.refresh (ops : PriceOps P) (m : Market P) : Market P :=
-  let mid : Option P :=
-    match Book.bestPrice m.buys, Book.bestPrice m.sells with
-    | some b, some s => some (ops.mid s b)
-    | _, _ => none
-  let mk : Option P :=
-    if m.running then
-      match m.cur.last with
-      | some l => some l
-      | none => match mid with
-        | some x => some x
-        | none => m.cur.market
-    else m.cur.market
-  { m with cur := { m.cur with mid := mid, market := mk } }
+  { m with cur := { m.cur with
+      mid := midOf ops m.buys m.sells,
+      market := marketRule m.running m.cur.last (midOf ops m.buys m.sells) m.cur.market } }
 
 /-- `_add_order(order)` for an unstamped order addressed to this market -/
 def Market.addOrder (ops : PriceOps P) (m : Market P) (r : Req P) : Market P Ã— OrderLog P :=
@@ -178,14 +186,7 @@ def Market.tick (ops : PriceOps P) (m : Market P) (fund : Option P) : Market P Ã
   let t := m.time + 1
   let eb := Book.expiredAt t m.buys
   let es := Book.expiredAt t m.sells
-  let mk : Option P :=
-    if m.running then
-      match m.cur.last with
-      | some l => some l
-      | none => match m.cur.mid with
-        | some x => some x
-        | none => m.cur.market
-    else m.cur.market
+  let mk : Option P := marketRule m.running m.cur.last m.cur.mid m.cur.market
   let cur' : Slot P := { market := mk, last := m.cur.last, mid := m.cur.mid, fund := fund,
                          execVol := 0, turnover := ops.zero, nBuy := 0, nSell := 0 }
   ({ m with time := t, buys := Book.keepAt t m.buys, sells := Book.keepAt t m.sells,
@@ -243,13 +244,17 @@ def Market.execution (ops : PriceOps P) (m : Market P) : Except Err (Market P Ã—
         .error .stillExecutable
       else .ok (m.settle ops (walk m.buys m.sells) price)
 
+/-- a slot of the recorded past -/
+def Market.pastAt (m : Market P) (t : Nat) : Except Err (Slot P) :=
+  match m.past[m.time - 1 - t]? with
+  | some s => .ok s
+  | none => .error .future
+
 /-- series getters (`get_market_price(t)` â€¦): refuse the future -/
 def Market.slotAt (m : Market P) (t : Nat) : Except Err (Slot P) :=
   if t > m.time then .error .future
   else if t = m.time then .ok m.cur
-  else match m.past[m.time - 1 - t]? with
-    | some s => .ok s
-    | none => .error .future
+  else m.pastAt t
 
 /-- `get_vwap(t)`: total turnover / total volume up to `t`; here the two sums (division and the
 NaN for zero volume are left to the caller) -/
